@@ -13,7 +13,14 @@ sympy expressions, numpy broadcasting):
       M2 = T^2 - X^2 - Y^2 - Z^2; neg flips the spatial part
 Domain assumption: |b| < 1 and b != 0 (the tf.where(beta^2 > eps, ..., 0) guard takes its
 true branch), energies positive.
-Not decided: the helicity-angle round trip over topologies (data-dependent frame bookkeeping).
+  (c) one helicity step (c11_helicity.check_helicity_step): EulerAngle.angle_zx_z_getx recovers (phi, theta) from
+      a momentum built with them; the helicity frames create_rotate_p_decay records for both daughters are the
+      frames the extractor derives (x axes equal, z = unit momentum, right-handed); daughters back to back, on shell
+  (d) frame typing (c11_helicity.check_frame_typing): every LorentzVector.rest_vector in cal_chain_boost /
+      cal_single_boost takes velocity and boosted momentum from the same frame, the velocity is the decaying
+      particle's momentum, the result is stored as that decay's rest-frame momentum
+Not decided: the helicity-angle round trip as a whole over topologies (which decays/particles the dictionaries
+are keyed by at run time); (c)+(d) are its per-step necessary conditions.
 """
 import numpy as np
 import sympy as sp
@@ -48,8 +55,10 @@ def run(repo, chk, tier):
     chk.trusted_base[:] = ["AST->sympy translator sa/sym.py (tensor ops mapped to numpy object arrays)", "sympy ring normaliser"]
     tr = Translator(repo, where_policy=where_policy, hooks={"stack_as_array": True})
 
+    DOMAIN = {"c": (sp.Rational(-9, 10), sp.Rational(9, 10))} # cos(theta) of the helicity-step clause
+
     def oblige(rule, text, a, b, where, construct):
-        ok, detail = equal(sp.sympify(a), sp.sympify(b))
+        ok, detail = equal(sp.sympify(a), sp.sympify(b), symbols_domain=DOMAIN)
         if ok is None:
             raise AnalysisError("E6 normaliser too weak for %s: %s" % (text, detail))
         chk.oblige(rule, text, ok)
@@ -141,8 +150,14 @@ def run(repo, chk, tier):
     for k in (1, 2, 3):
         oblige("E6-boost", "rest_vector(a, a)[%s] == 0" % "TXYZ"[k], rs[k], 0, LV + "rest_vector", "self-%d" % k)
     oblige("E6-boost", "rest_vector(a, a)[T]^2 == M2(a)", rs[0] ** 2, M2(a), LV + "rest_vector", "self-mass")
+    from .c11_helicity import check_helicity_step
+
+    check_helicity_step(repo, chk, oblige)
+    from .c11_helicity import check_frame_typing
+
+    check_frame_typing(repo, chk)
     chk.extra["kernels_inlined"] = sorted(tr.inlined)
     chk.extra["domain_assumptions_used"] = sorted(set(tr.assumed))[:10]
-    chk.info("not decided: helicity-angle round trip over decay topologies (cal_helicity_angle / HelicityAngle.build_data): data-dependent frame bookkeeping")
+    chk.info("not decided as a whole: helicity-angle round trip over decay topologies (cal_helicity_angle / HelicityAngle.build_data): data-dependent frame bookkeeping")
     if chk.obligations < 44:
         raise AnalysisError("only %d C11 obligations generated" % chk.obligations)
